@@ -71,6 +71,12 @@ CHECKS = {
             "their output validated line by line by SeqTrace.tla",
             "output lines are only re-encoded (date -> chain day, time -> second of day); FIRST = LAST for times is read as one full lap (the tool's "
             "reading); compound month+day increments are not judged", "5 C15"),
+    "C16": ("model_checking", "TLA+ Round (constructive = declarative nearest-admissible-point, Idempotent, Strict; co-class) model-checked on a scaled calendar; real dround runs validated by RoundTrace (same rule on the Gregorian calendar) + idempotence re-runs",
+            "Round.tla proves on a scaled calendar, for every value x target x direction x --next, that the documented constructive rule equals the "
+            "declarative meaning and is idempotent / strict; RoundTrace.tla applies that rule on the real calendar to 37k|400k recorded dround runs "
+            "(all weekday/month/day-of-month >= 28/co-class month, year, day specs + seeded hour/minute/second specs, chains of specs); every "
+            "result is rounded again to check idempotence through the tool",
+            "inputs are month ends, leap days and boundary windows x 6 times of day; results outside 1601..4095 are not judged", "5 C16"),
 }
 NOT_APPLICABLE = []
 
